@@ -236,7 +236,7 @@ def pj_elem(engine, state, frame, e):
 
 
 class Engine:
-    def __init__(self, P, opaque=(), inline_depth=6, max_states=20000, subst=None, models=None, inline_extern=()):
+    def __init__(self, P, opaque=(), inline_depth=6, max_states=60000, subst=None, models=None, inline_extern=()):
         self.P = P
         self.opaque = set(opaque)
         self.inline_depth = inline_depth
@@ -266,9 +266,13 @@ class Engine:
     def deref_loc(self, v):
         if v[0] == "ref":
             return v[1]
+        if v[0] == "refv":
+            return ("val", v[1], ())
         return ("ext", v, ())
 
     def read_loc(self, state, loc):
+        if loc[0] == "val":
+            return get_path(loc[1], loc[2])
         if loc[0] == "local":
             f = state.frames.get(loc[1])
             v = f.locals.get(loc[2], ("undef",)) if f else ("undef",)
@@ -277,6 +281,8 @@ class Engine:
         return get_path(base, loc[2])
 
     def write_loc(self, state, loc, value):
+        if loc[0] == "val":
+            return
         if loc[0] == "local":
             f = state.frames[loc[1]]
             f.locals[loc[2]] = set_path(f.locals.get(loc[2], ("undef",)), loc[3], value)
@@ -333,6 +339,8 @@ class Engine:
                 return ("ref", ("ext", ("static", t["static"]), ()))
             if "from" in o:
                 return ("const", o["from"])
+            if "mem" in t:
+                return ("refv", ("mem", t["mem"], t.get("len", 0)))
             return ("ref", ("ext", ("alloc", str(t)[:80]), ()))
         if "bytes" in c:
             if "from" in o:
@@ -366,18 +374,22 @@ class Engine:
         self.const_cache[key] = ("val", val)
         return val
 
-    def freeze(self, state, t):
+    def freeze(self, state, t, seen=frozenset()):
         """Replace references into (dead) frames by the referenced value: ("ref", loc) -> ("refv", value)."""
         if not isinstance(t, tuple) or not t:
             return t
         if t[0] == "ref":
             loc = t[1]
+            if loc in seen:
+                return ("ref", ("cyclic",) + tuple(loc[:3]))
+            if loc[0] == "val":
+                return ("refv", self.freeze(state, get_path(loc[1], loc[2]), seen))
             if loc[0] == "local":
-                return ("refv", self.freeze(state, self.read_loc(state, loc)))
+                return ("refv", self.freeze(state, self.read_loc(state, loc), seen | {loc}))
             if loc[1] in state.ext:
-                return ("refv", self.freeze(state, self.read_loc(state, loc)))
+                return ("refv", self.freeze(state, self.read_loc(state, loc), seen | {loc}))
             return t
-        return tuple(self.freeze(state, x) if isinstance(x, tuple) else x for x in t)
+        return tuple(self.freeze(state, x, seen) if isinstance(x, tuple) else x for x in t)
 
     def operand(self, state, frame, o):
         k = o["k"]
@@ -644,10 +656,14 @@ class Engine:
         app = ("app", fn_args if isinstance(fn_args, str) and fn_args else key, tuple(args))
         # a callee that receives `&mut` may write through it: forget what is known about the pointee
         if term is not None:
+            frozen = None
             for i, a in enumerate(term["a"]):
                 pty = a.get("p", {}).get("ty", "") if a.get("k") in ("copy", "move") else a.get("ty", "")
                 if pty.startswith("&mut") and args[i][0] == "ref":
-                    self.write_loc(state, args[i][1], ("mutated", key, tuple(args), i))
+                    if frozen is None:
+                        frozen = tuple(self.freeze(state, x) for x in args)
+                        app = ("app", app[1], frozen)
+                    self.write_loc(state, args[i][1], ("mutated", key, frozen, i))
         return [(state, app)]
 
     def in_stack(self, state, key):
@@ -692,9 +708,14 @@ class Engine:
                     work.append((st2, tgt, seen))
             elif k == "call":
                 if t["t"] is None:
-                    # diverging call (panic): path ends; recorded for C07, not a return
+                    # diverging call (panic): the path ends here
+                    callee = t["f"].get("fn", "?") if t["f"].get("k") == "fnref" else "?"
+                    out.append((st, ("panic", callee, t.get("sp", ""))))
                     continue
                 for st2, res in self.call(st, fr, t, depth):
+                    if res[0] == "panic":
+                        out.append((st2, res))
+                        continue
                     fr2 = st2.frames[fid]
                     d = t["d"]
                     if not d["pj"]:
@@ -703,6 +724,14 @@ class Engine:
                         self.write_loc(st2, self.loc_of_place(st2, fr2, d), res)
                     work.append((st2, t["t"], seen))
             elif k == "assert":
+                c = self.operand(st, fr, t["c"])
+                exp = 1 if t["e"] else 0
+                if is_const(c):
+                    if c[1] != exp:
+                        out.append((st, ("panic", "assert:" + t["m"]["k"], t.get("sp", ""))))
+                        continue
+                elif c[0] != "rtc":
+                    st.cond.append((("assert", t["m"]["k"] + (":" + t["m"]["op"] if "op" in t["m"] else ""), c), exp))
                 work.append((st, t["t"], seen))
             elif k == "drop":
                 work.append((st, t["t"], seen))
@@ -796,17 +825,19 @@ class Engine:
         return not b["s"] and b["t"]["k"] == "unreachable"
 
     # ---------------------------------------------------------- entry points
-    def tabulate(self, key, args=None):
+    def tabulate(self, key, args=None, keep_panics=False):
         """Leaves of function `key` applied to opaque parameters (or the given argument terms)."""
         body = self.P.body(key)
         st = State()
+        self.states_created = 0
         if args is None:
             args = []
             for i in range(body["argc"]):
                 l = body["locals"][i + 1]
                 args.append(("param", i, l.get("n", f"arg{i}")))
         leaves = self.run_body(st, key, body, list(args), 0)
-        return [Leaf(s, self.freeze(s, r)) for s, r in leaves]
+        out = [Leaf(s, self.freeze(s, r)) for s, r in leaves]
+        return out if keep_panics else [l for l in out if l.ret[0] != "panic"]
 
 
 def compose(eng, keys, args=None):
@@ -820,9 +851,11 @@ def compose(eng, keys, args=None):
         nxt = []
         b = eng.P.body(k)
         for s, r in cur:
+            if r[0] == "panic":
+                continue
             nxt.extend(eng.run_body(s, k, b, [r], 0))
         cur = nxt
-    return [Leaf(s, eng.freeze(s, r)) for s, r in cur]
+    return [Leaf(s, eng.freeze(s, r)) for s, r in cur if r[0] != "panic"]
 
 
 def is_recon(P, ret, x, known):
@@ -912,7 +945,7 @@ def struct_eq(a, b):
 
 
 def closed(t):
-    if not isinstance(t, tuple):
+    if not isinstance(t, tuple) or not t:
         return True
     if t[0] in ("param", "obj", "app", "field", "vfield", "discr", "unknown", "undef", "index", "mutated"):
         return False
@@ -959,8 +992,17 @@ def m_option_unwrap(eng, st, args, info):
     if v[0] == "adt" and v[2] == "Some":
         return [(st, v[3][0])]
     if v[0] == "adt" and v[2] == "None":
-        return []   # panics
+        return [(st, ("panic", "Option::unwrap(None)", ""))]
     return [(st, ("unwrap", v))]
+
+
+def m_option_unwrap_unchecked(eng, st, args, info):
+    v = args[0]
+    if v[0] == "adt" and v[2] == "Some":
+        return [(st, v[3][0])]
+    if v[0] == "adt" and v[2] == "None":
+        return [(st, ("panic", "UB: Option::unwrap_unchecked(None)", ""))]
+    return [(st, ("unwrap_unchecked", v))]
 
 
 def m_localkey_with(eng, st, args, info):
@@ -1058,11 +1100,43 @@ def m_try_branch(eng, st, args, info):
         if v[2] == "Ok":
             return [(st, ("adt", CF, "Continue", (v[3][0],)))]
         return [(st, ("adt", CF, "Break", (("adt", "core::result::Result", "Err", (v[3][0],)),)))]
+    if info["fn_args"] and "core::option::Option<" in str(info["fn_args"]).split(" as ")[0]:
+        s1, s2 = st.fork(), st.fork()
+        s1.known[v] = "Some"
+        s1.cond.append((("discr", v), "Some"))
+        s2.known[v] = "None"
+        s2.cond.append((("discr", v), "None"))
+        return [(s1, ("adt", CF, "Continue", (("vfield", v, "Some", 0),))), (s2, ("adt", CF, "Break", (OPT_NONE,)))]
+    if info["fn_args"] and "core::result::Result<" in str(info["fn_args"]).split(" as ")[0]:
+        s1, s2 = st.fork(), st.fork()
+        s1.known[v] = "Ok"
+        s1.cond.append((("discr", v), "Ok"))
+        s2.known[v] = "Err"
+        s2.cond.append((("discr", v), "Err"))
+        return [(s1, ("adt", CF, "Continue", (("vfield", v, "Ok", 0),))),
+                (s2, ("adt", CF, "Break", (("adt", "core::result::Result", "Err", (("vfield", v, "Err", 0),)),)))]
     return [(st, ("try_branch", v))]
 
 
 def m_from_residual(eng, st, args, info):
-    return [(st, ("from_residual", args[0])) if args[0][0] != "adt" else (st, args[0])]
+    v = args[0]
+    if v[0] == "adt" and v[1] == "core::option::Option":
+        return [(st, OPT_NONE)]
+    if v[0] == "adt" and v[1] == "core::result::Result" and v[2] == "Err":
+        return [(st, ("adt", "core::result::Result", "Err", (("from", v[3][0]),)))]
+    return [(st, ("from_residual", v))]
+
+
+def m_call_once(eng, st, args, info):
+    fv = args[0]
+    if fv[0] in ("ref", "refv"):
+        fv = eng.deref_value(st, fv)
+    tup = args[1] if len(args) > 1 else ("tuple", ())
+    if tup[0] != "tuple":
+        return None
+    if fv[0] in ("closure", "fn"):
+        return eng.call_value(st, fv, list(tup[1]), info["depth"])
+    return None
 
 
 def m_reverse(eng, st, args, info):
@@ -1126,6 +1200,108 @@ def m_into(eng, st, args, info):
     return None
 
 
+OK_UNIT = ("adt", "core::result::Result", "Ok", (("tuple", ()),))
+
+
+def decode_fmt_template(hexs):
+    """rustc's compact format_args! template: 0xC0 = next argument ({}), n<0x80 followed by n literal bytes, 0 = end.
+    Returns a list of ("lit", str) / ("arg",) or None if an unknown opcode occurs."""
+    b = bytes.fromhex(hexs)
+    out, i = [], 0
+    while i < len(b):
+        c = b[i]
+        if c == 0:
+            break
+        if c == 0xC0:
+            out.append(("arg",))
+            i += 1
+        elif c < 0x80:
+            out.append(("lit", b[i + 1:i + 1 + c].decode("utf8", "replace")))
+            i += 1 + c
+        else:
+            return None
+    return out
+
+
+def _emit_display(eng, st, x, ty, depth, f):
+    """Emit the Display text of value x of type ty: workspace impls are inlined, primitives stay symbolic."""
+    key = f"<{ty} as core::fmt::Display>::fmt"
+    if key in eng.P.fns and depth < eng.inline_depth and key not in eng.opaque and closed(x):
+        holder = ("fmt_arg", len(st.trace), ty)
+        st.ext[holder] = x
+        res = eng.call_key(st, key, key, [("ref", ("ext", holder, ())), f], depth, None)
+        return [s for s, _ in res]
+    st.trace.append(("emit", "disp", x, ty))
+    return [st]
+
+
+def m_write_fmt(eng, st, args, info):
+    f, a = args[0], args[1]
+    if not (a[0] == "app" and "Arguments" in a[1] and "::new" in a[1]):
+        if a[0] == "app" and "Arguments" in a[1] and "from_str" in a[1]:
+            s = a[2][0]
+            st.trace.append(("emit", "lit", s[1]) if s[0] == "str" else ("emit", "str", s))
+            return [(st, OK_UNIT)]
+        st.trace.append(("emit", "opaque", a))
+        return [(st, OK_UNIT)]
+    tmpl, argv = a[2][0], a[2][1] if len(a[2]) > 1 else ("refv", ("array", ()))
+    tv = eng.deref_value(st, tmpl)
+    pieces = decode_fmt_template(tv[1]) if tv[0] == "mem" else None
+    arr = eng.deref_value(st, argv)
+    if pieces is None or arr[0] != "array":
+        st.trace.append(("emit", "opaque", a))
+        return [(st, OK_UNIT)]
+    states = [st]
+    ai = 0
+    for pc in pieces:
+        if pc[0] == "lit":
+            for s in states:
+                s.trace.append(("emit", "lit", pc[1]))
+        else:
+            arg = arr[1][ai] if ai < len(arr[1]) else ("unknown", "missing fmt arg")
+            ai += 1
+            nxt = []
+            for s in states:
+                if arg[0] == "app" and "Argument" in arg[1] and "new_display::<" in arg[1]:
+                    ty = arg[1].split("new_display::<", 1)[1].rsplit(">", 1)[0]
+                    x = eng.deref_value(s, arg[2][0])
+                    nxt.extend(_emit_display(eng, s, x, ty, info["depth"], f))
+                elif arg[0] == "app" and "Argument" in arg[1] and "new_debug::<" in arg[1]:
+                    ty = arg[1].split("new_debug::<", 1)[1].rsplit(">", 1)[0]
+                    x = eng.deref_value(s, arg[2][0])
+                    s.trace.append(("emit", "dbg", x, ty))
+                    nxt.append(s)
+                else:
+                    s.trace.append(("emit", "opaque", arg))
+                    nxt.append(s)
+            states = nxt
+    return [(s, OK_UNIT) for s in states]
+
+
+def m_write_str(eng, st, args, info):
+    s = args[1]
+    st.trace.append(("emit", "lit", s[1]) if s[0] == "str" else ("emit", "str", s))
+    return [(st, OK_UNIT)]
+
+
+def m_write_char(eng, st, args, info):
+    c = args[1]
+    st.trace.append(("emit", "char", c))
+    return [(st, OK_UNIT)]
+
+
+PRIM_DISPLAY = re.compile(r"^core::fmt::num::imp::<impl core::fmt::Display for ([ui](8|16|32|64|128|size))>::fmt$|^<(char|str|bool) as core::fmt::Display>::fmt$")
+
+
+def m_prim_display(eng, st, args, info):
+    m = PRIM_DISPLAY.match(info["key"])
+    if not m:
+        return None
+    x = eng.deref_value(st, args[0])
+    st.trace.append(("emit", "disp", x, m.group(1) or m.group(3)))
+    return [(st, OK_UNIT)]
+
+
 def m_unit(eng, st, args, info):
     return [(st, ("tuple", ()))]
 
@@ -1136,6 +1312,7 @@ DEFAULT_MODELS = {
     "core::cmp::impls::cmp": m_ord_cmp,
     "core::num::nonzero::NonZero::new": m_nonzero_new,
     "core::option::Option::unwrap": m_option_unwrap,
+    "core::option::Option::unwrap_unchecked": m_option_unwrap_unchecked,
     "core::option::Option::map_or": m_option_map_or,
     "core::option::Option::map": m_option_map,
     "core::option::Option::is_some": m_option_is("Some"),
@@ -1167,6 +1344,20 @@ DEFAULT_MODELS = {
     "core::cmp::Ord::max": lambda eng, st, args, info: (m_max_min("max")(eng, st, args, info) or [(st, ("max",) + tuple(sorted(args, key=repr)))]),
     "core::cmp::Ord::min": lambda eng, st, args, info: (m_max_min("min")(eng, st, args, info) or [(st, ("min",) + tuple(sorted(args, key=repr)))]),
     "core::ops::try_trait::Try::branch": m_try_branch,
+    "<core::option::Option<T> as core::ops::try_trait::Try>::branch": m_try_branch,
+    "<core::result::Result<T, E> as core::ops::try_trait::Try>::branch": m_try_branch,
+    "<core::option::Option<T> as core::ops::try_trait::FromResidual<core::option::Option<core::convert::Infallible>>>::from_residual": m_from_residual,
+    "<core::result::Result<T, F> as core::ops::try_trait::FromResidual<core::result::Result<core::convert::Infallible, E>>>::from_residual": m_from_residual,
+    "core::ops::function::FnOnce::call_once": m_call_once,
+    "core::fmt::Formatter::write_fmt": m_write_fmt,
+    "core::fmt::Formatter::write_str": m_write_str,
+    "<core::fmt::Formatter<'_> as core::fmt::Write>::write_char": m_write_char,
+    "<core::fmt::Formatter<'_> as core::fmt::Write>::write_str": m_write_str,
+    "core::fmt::num::imp::fmt": m_prim_display,
+    "<char as core::fmt::Display>::fmt": m_prim_display,
+    "<str as core::fmt::Display>::fmt": m_prim_display,
+    "core::ops::function::FnMut::call_mut": m_call_once,
+    "core::ops::function::Fn::call": m_call_once,
     "core::convert::Into::into": m_into,
     "<T as core::convert::Into<U>>::into": m_into,
 }
@@ -1229,3 +1420,159 @@ def show_cond(cond):
     for t, v in cond:
         out.append(f"{show(t)}={v}")
     return " & ".join(out) if out else "true"
+
+
+# ---------------------------------------------------------------------- finite-domain evaluation of extracted tables
+def concretize(eng, t, env):
+    """Rebuild term `t` with the opaque leaves in `env` replaced by concrete terms, refolding constants.
+    This evaluates the *extracted summary* over a finite input domain; no repository code runs."""
+    if not isinstance(t, tuple) or not t:
+        return t
+    if t in env:
+        return env[t]
+    k = t[0]
+    if k in ("int", "param", "str", "fn", "zst", "const", "static", "scalar"):
+        return t
+    if k == "obj":
+        b = concretize(eng, t[1], env)
+        if b[0] == "refv":
+            return b[1]
+        return ("obj", b)
+    if k == "bin":
+        return eng.binop(t[1], concretize(eng, t[2], env), concretize(eng, t[3], env))
+    if k == "ovf":
+        a, b = concretize(eng, t[2], env), concretize(eng, t[3], env)
+        if is_const(a) and is_const(b):
+            r = eng.binop(t[1] + "WithOverflow", a, b)
+            return r[1][1]
+        return ("ovf", t[1], a, b)
+    if k == "un":
+        return eng.unop(t[1], concretize(eng, t[2], env))
+    if k == "cast":
+        return eng.cast(None, "IntToInt", concretize(eng, t[2], env), t[1])
+    if k == "discr":
+        v = concretize(eng, t[1], env)
+        if v[0] == "adt":
+            d = eng.variant_discr(v[1], v[2])
+            if d is not None:
+                return ("int", d, "isize")
+        return ("discr", v)
+    if k == "vfield":
+        v = concretize(eng, t[1], env)
+        if v[0] == "adt" and v[2] == t[2] and t[3] < len(v[3]):
+            return v[3][t[3]]
+        return ("vfield", v, t[2], t[3])
+    if k == "field":
+        v = concretize(eng, t[1], env)
+        return project(v, ("f", t[2] if isinstance(t[2], int) else 0, t[2] if not isinstance(t[2], int) else None, None)) if v[0] in ("tuple",) else ("field", v, t[2])
+    if k == "len":
+        v = concretize(eng, t[1], env)
+        if v[0] == "refv":
+            v = v[1]
+        if v[0] == "array":
+            return I(len(v[1]), "usize")
+        return ("len", v)
+    if k == "cindex":
+        v = concretize(eng, t[1], env)
+        if v[0] == "refv":
+            v = v[1]
+        if v[0] == "array":
+            i = len(v[1]) - t[2] if t[3] else t[2]
+            if 0 <= i < len(v[1]):
+                return v[1][i]
+        return ("cindex", v, t[2], t[3])
+    if k == "app":
+        args = tuple(concretize(eng, x, env) for x in t[2])
+        res = env.get("__apps__", {}).get(t[1])
+        if res is not None:
+            return res(args)
+        return ("app", t[1], args)
+    if k == "cmp":
+        a, b = concretize(eng, t[1], env), concretize(eng, t[2], env)
+        if is_const(a) and is_const(b):
+            return ordering((a[1] > b[1]) - (a[1] < b[1]))
+        return ("cmp", a, b)
+    if k == "eq":
+        a, b = concretize(eng, t[1], env), concretize(eng, t[2], env)
+        r = struct_eq(a, b)
+        return mk_bool(r) if r is not None else ("eq", a, b)
+    if k == "abs_diff":
+        a, b = concretize(eng, t[1], env), concretize(eng, t[2], env)
+        if is_const(a) and is_const(b):
+            return I(abs(a[1] - b[1]), a[2])
+        return ("abs_diff", a, b)
+    if k in ("max", "min"):
+        a, b = concretize(eng, t[1], env), concretize(eng, t[2], env)
+        if is_const(a) and is_const(b):
+            return a if (a[1] >= b[1]) == (k == "max") else b
+        return (k, a, b)
+    return tuple(concretize(eng, x, env) if isinstance(x, tuple) else x for x in t)
+
+
+def cond_holds(eng, cond, env):
+    """True / False / None (undetermined) for one (term, value) path condition under `env`."""
+    t, v = cond
+    if t[0] == "assert":
+        c = concretize(eng, t[2], env)
+        if is_const(c):
+            return c[1] == v
+        return None
+    if t[0] == "discr" and isinstance(v, str):
+        x = concretize(eng, t[1], env)
+        if x[0] == "adt":
+            return x[2] == v
+        return None
+    c = concretize(eng, t, env)
+    if not is_const(c):
+        return None
+    if isinstance(v, tuple) and v and v[0] == "not":
+        return c[1] not in v[1]
+    return c[1] == v
+
+
+def eval_table(eng, leaves, env):
+    """The unique leaf of an extracted table selected by the concrete inputs `env`.
+    Returns ("panic", why) when an assert on the selected path fails, ("ambiguous", n) if the table is not a function."""
+    hits = []
+    for lf in leaves:
+        ok, failed_assert = True, None
+        for c in lf.cond:
+            h = cond_holds(eng, c, env)
+            if h is None:
+                return ("undetermined", show(c[0]))
+            if not h:
+                if c[0][0] == "assert":
+                    failed_assert = c[0][1]
+                    break
+                ok = False
+                break
+        if failed_assert:
+            hits.append(("panic", "assert:" + failed_assert))
+        elif ok:
+            hits.append(lf.ret if lf.ret[0] == "panic" else concretize(eng, lf.ret, env))
+    if len(hits) != 1:
+        return ("ambiguous", len(hits))
+    return hits[0]
+
+
+def emitted_text(trace):
+    """Concatenate the emit events of a path into the text written; None if a piece is not concrete."""
+    out = []
+    for tr in trace:
+        if tr[0] != "emit":
+            continue
+        kind = tr[1]
+        if kind == "lit":
+            out.append(tr[2])
+        elif kind == "char":
+            if not is_const(tr[2]):
+                return None
+            out.append(chr(tr[2][1]))
+        elif kind == "disp":
+            x, ty = tr[2], tr[3]
+            if not is_const(x):
+                return None
+            out.append(chr(x[1]) if ty == "char" else str(x[1]))
+        else:
+            return None
+    return "".join(out)
